@@ -4,6 +4,36 @@ import subprocess
 d = open("DESIGN.md").read()
 sec = open("tools/design_section0.md.src").read()
 table = subprocess.run(["python3", "tools/seeded_table.py"], stdout=subprocess.PIPE, text=True).stdout
+import re
+from pathlib import Path
+
+
+def findings(prop):
+    """(open ids, {commit: [fixed ids]}) from known_findings/<prop>.txt"""
+    f = Path("known_findings") / f"{prop}.txt"
+    opens, fixed = [], {}
+    for line in f.read_text().splitlines() if f.exists() else []:
+        m = re.match(r"KNOWN-FINDING: property=\S+ id=(\S+)", line)
+        if m:
+            opens.append(m.group(1))
+        m = re.match(r"fixed: property=\S+ (\S+) id=(\S+)", line)
+        if m:
+            fixed.setdefault(m.group(1), []).append(m.group(2))
+    return opens, fixed
+
+
+def short(ids, prop):
+    """C01-a, C01-b -> C01-a,b (ids of another property are kept whole)"""
+    own = [i.split("-", 1)[1] for i in ids if i.startswith(prop + "-")]
+    other = [i for i in ids if not i.startswith(prop + "-")]
+    return ", ".join(([f"{prop}-" + ",".join(own)] if own else []) + other)
+
+
+for n in range(1, 21):
+    prop = f"C{n:02d}"
+    opens, fixed = findings(prop)
+    sec = sec.replace("{{OPEN:%s}}" % prop, short(opens, prop) or "–")
+    sec = sec.replace("{{FIXED:%s}}" % prop, "; ".join(f"{short(v, prop)} {k}" for k, v in fixed.items()) or "–")
 sec = sec.replace("SEEDED_TABLE", "<!-- SEEDED_TABLE_BEGIN -->\n" + table + "<!-- SEEDED_TABLE_END -->\n")
 marker = "---------------------------------------------------------------------------------------------------\n\n## 1. What is being built"
 i, j = d.index("## 0. As built"), d.index(marker)
